@@ -18,11 +18,11 @@ THEOREMS = ["PotasscoVerif.C02.C02_stable_models", "PotasscoVerif.C02.C02_equiva
             "PotasscoVerif.C02.C02_minimize_flip", "PotasscoVerif.C02.C02_minimize_sorted", "PotasscoVerif.C02.flushMinimize_order",
             "PotasscoVerif.C02.C02_externals_passed", "PotasscoVerif.C02.C02_stable_models_ext", "PotasscoVerif.C02.C02_equivalence_ext", "PotasscoVerif.C02.C02_cost_ext",
             "PotasscoVerif.C02.extRules_out", "PotasscoVerif.C02.flushExternal_specT",
-            "PotasscoVerif.C02.steps_JX", "PotasscoVerif.C02.C02_steps_translation", "PotasscoVerif.C02.C02_steps_stable_models"]
+            "PotasscoVerif.C02.steps_JX", "PotasscoVerif.C02.C02_steps_translation", "PotasscoVerif.C02.C02_steps_stable_models", "PotasscoVerif.C02.C02_steps_externals"]
 PARTIAL = {"several steps with external directives": "C02_steps_stable_models: for incremental programs of ANY number of steps without external directives (extension on or off) the rules given so far and the rules "
            "emitted so far have the same answer sets, one to one under ONE atom map (C02_steps_translation, also with the extension on and any externals: the rule part). With external directives AND several steps "
            "the declarative reading of the externals across steps (which step's value counts for an atom declared in several steps, an atom defined in a later step) is not fixed by `progOf`; there the "
-           "externals of each step are covered by C02_externals_passed / C02_stable_models_ext step by step and the answer sets by model == implementation; shown names and costs are proved per step"}
+           "external calls emitted over all steps are proved to be the pending externals of each step with image and last value (C02_steps_externals), the one-step meaning by C02_stable_models_ext, and the answer sets by model == implementation; shown names and costs are proved per step"}
 BSIZES = (4096,)
 LPCONVERT = True
 RULE = ("programs of 1..8 directives over 2..6 atoms: disjunctive/choice heads incl. empty, normal and weight bodies (bounds < 0, 0, reachable, unreachable; weights 0/1/mixed), "
@@ -45,7 +45,7 @@ LEVEL_TEXT = ("Reference semantics Spec/Asp.lean (stable models with disjunctive
               "rule); C02_stable_models_ext / C02_equivalence_ext / C02_cost_ext: answer sets, shown names and costs correspond as above for EVERY step with ANY external directives converted with the extension on. "
               "Several steps (Lemmas/ConvertSteps.lean, Props/C02m.lean): the invariants J and XI are carried from step to step (step_JX, steps_JX: the flags of atoms survive the end of a step, the pending lists are emptied); "
               "C02_steps_translation: after ANY number of steps all emitted rules are a translation of all given rules under one atom map and one table of auxiliary atoms (no external directives, or extension on); "
-              "C02_steps_stable_models: hence for incremental programs without external directives the cumulative answer sets correspond one to one. The check's answer-set oracle now also runs on such multi-step programs.")
+              "C02_steps_stable_models: hence for incremental programs without external directives the cumulative answer sets correspond one to one; C02_steps_externals: with the extension on, the external calls of ALL steps are, step after step, the atoms declared external while no rule so far had defined them, with image under the final map and last value of that step. The check's answer-set oracle now also runs on such multi-step programs.")
 LEVEL_NOTE = ("Proof of the single-step equivalence (answer sets, shown names, cost; externals compiled away AND passed on with the extension); several steps without externals; partial for several steps WITH externals + correspondence (~4k quick / 100k thorough programs × ext on/off, sample through lpconvert) + answer-set oracle on small programs. Trusted: Lean kernel+axioms, "
               "asp_sem.py, harness, generator in props/c02.py. D9 (INT_MIN minimize weight) repaired.")
 
